@@ -49,10 +49,14 @@ def flat_decoder(ctx, body, adt):
             return not p_.startswith(body.path + "::")
         sp = strip_generics(p_)
         if f_["kind"] == "fn" and not f_.get("impl_trait"):
-            if not f_.get("impl_self") and sp.startswith(module) and sp.count("::") == module.count("::"):
-                return False            # free function of the decoder's module
+            if not f_.get("impl_self") and sp.startswith("codec::") and f_.get("vis") != "pub":
+                return False            # free function of the codec (the decoder's module, or plumbing shared between decoders)
             if strip_generics(f_.get("impl_self") or "") == sadt and f_.get("vis") != "pub":
                 return False            # private inherent method of the decoded type
+        if f_["kind"] == "fn" and f_.get("impl_trait") and re.search(r"Builder$", re.sub(r"<.*$", "", f_.get("impl_self") or "")):
+            tr_ = re.sub(r"<.*$", "", f_["impl_trait"])
+            if tr_.startswith("codec::") and tr_ not in ("core::utils::TryDecode",):
+                return False            # a crate-local trait through which shared plumbing reaches this decoder's builder
         return True
     return ctx.flat_with(body, kept, "rx:" + adt, normalise=False)
 
@@ -440,6 +444,440 @@ def multi(ctx):
     return out
 
 
+def decode_iter_nexts(body):
+    """[(block, call terminator, item type)] for the `next()` calls that drive a loop over the items of a Decoder
+    (`decoder.iter::<T>()`, whatever type that iterator has)."""
+    out = []
+    for i, t in body.calls(r"Iterator::next$"):
+        st = (t["callee"].get("self_ty") or "") + " " + (t["callee"].get("resolved") or "")
+        m = re.search(r"DecodeIter<([^ ]*)>", st)
+        item = m.group(1) if m else None
+        if item is None:
+            for a in body.atoms(t["ops"][0]):
+                if a[0] == "call" and re.search(r"core::utils::Decoder::iter$", strip_generics(a[1])):
+                    item = "?"
+            if item == "?":
+                for j, tt in body.calls(r"core::utils::Decoder::iter$"):
+                    if body.dominates(j, i):
+                        args = [x for x in (tt["callee"].get("args") or []) if not x.startswith("'")]
+                        if args:
+                            item = args[-1]
+        if item is not None:
+            out.append((i, t, item))
+    return out
+
+
+@rule("RXHDR", floor=3)
+def rxhdr(ctx):
+    """Every decoder of a packet that can arrive while run() serves the connection (all but CONNACK; PUBLISH carries
+    data in its flags) tests the whole first byte against the fixed header the standard prescribes: a packet whose
+    reserved flag bits are not the prescribed ones is undecodable, not accepted."""
+    spec = ctx.spec("packets")
+    out = []
+    for im in ctx.facts.impls:
+        tr = im.get("trait")
+        adt = im.get("self_adt") or ""
+        nm = adt.split("::")[-1]
+        if not tr or tr["path"] != "core::utils::TryDecode" or not adt.startswith("codec::") or not nm.endswith("Rx") or nm in ("ConnackRx", "PublishRx"):
+            continue
+        fn = [it for it in im["items"] if it["kind"] == "fn" and it["name"] == "try_decode"]
+        if not fn:
+            continue
+        body = flat_decoder(ctx, ctx.world.body(fn[0]["def"]), adt)
+        units = [body] + [ctx.world.body(p_) for p_ in ctx.facts.children.get(body.path, []) if ctx.facts.fn(p_) and ctx.facts.fn(p_)["kind"] == "closure"]
+        found = []
+        for u in units:
+            for i in sorted(u.reach):
+                cd = Cond(u, i)
+                if cd.kind != "cmp" or cd.op not in ("Eq", "Ne"):
+                    continue
+                for x, y in ((cd.a, cd.b), (cd.b, cd.a)):
+                    ey = symex(u, y)
+                    name = ey[1].split("::")[-1] if ey[0] == "uneval" else None
+                    val = u.fold(y)
+                    if name not in ("FIXED_HDR", "PACKET_ID") and not (ey[0] == "const" and isinstance(val, int)):
+                        continue
+                    ex = symex(u, x)
+                    while ex[0] == "cast":
+                        ex = ex[2]
+                    if ex[0] == "place":
+                        shape = "whole byte"
+                    elif ex[0] == "bin" and ex[1] == "Shr" and sym_fold(ex[3]) == 4:
+                        shape = "type nibble only"
+                    elif ex[0] == "bin" and ex[1] == "BitAnd":
+                        shape = "masked byte"
+                    else:
+                        continue
+                    lt = local_ty_(u, x)
+                    if lt not in (None, "u8"):
+                        continue
+                    found.append((shape, name, val, u.site(i)))
+        if not found:
+            out.append(Inst("RXHDR", nm, True, body.site(0), "NOT DECIDED: the test of the first byte is written in a way this rule does not read", "whole byte = fixed header", {"undecided": True}))
+            continue
+        shape, name, val, site = found[0]
+        key = nm.replace("Rx", "").upper()
+        want = None
+        if key in spec["types"]:
+            want = (spec["types"][key] << 4) | spec["fixed_flags"].get(key, 0)
+        ok = shape == "whole byte" and (name == "FIXED_HDR" or (want is not None and val == want)) and (val is None or want is None or val == want)
+        out.append(Inst("RXHDR", nm, ok, site, "first byte tested as %s against %s%s" % (shape, name or "a constant", " = 0x%02x" % val if val is not None else ""),
+                        "the whole byte equals the fixed header of the packet type (reserved flags included)%s" % (": 0x%02x" % want if want is not None else "")))
+    return out
+
+
+def local_ty_(body, op):
+    if op.get("k") == "const":
+        return op.get("ty")
+    pl = op["pl"]
+    if pl["p"]:
+        last = [p for p in pl["p"] if isinstance(p, dict) and "ty" in p]
+        return last[-1]["ty"] if last else None
+    return body.locals[pl["l"]]["ty"]
+
+
+@rule("DECODE-BE", floor=2)
+def decode_be(ctx):
+    """The fixed-width integer decoders (u16, u32) assemble the value big endian: whichever way it is written
+    (explicit shifts of indexed bytes, a fold `acc << 8 | byte` over the first n bytes, from_be_bytes / get_uN), byte i
+    of n lands at bit 8 * (n - 1 - i)."""
+    from r_panic import _fn_value
+    out = []
+    for ty, n in (("u16", 2), ("u32", 4)):
+        fns = [f for f in ctx.facts.fns if f["kind"] == "fn" and re.search(r"impl core::utils::TryDecode for %s>::try_decode$" % ty, f["path"])]
+        if not fns:
+            continue
+        b = ctx.world.body(fns[0]["path"])
+        ctx.note(b)
+        verdicts = []
+        for i in sorted(b.reach):
+            for st in b.blocks[i]["stmts"]:
+                if st["k"] == "assign" and st["lhs"]["l"] == 0 and not st["lhs"]["p"] and st["rv"]["k"] == "agg" and st["rv"].get("variant") == "Ok":
+                    e = symex(b, st["rv"]["ops"][0])
+                    terms = sym_or_terms_(e)
+                    idx = []
+                    for x, sh in terms or []:
+                        leaves = [l for l in sym_leaves(x) if l[0] == "place"]
+                        m = re.search(r"\[(\d+)\]$", leaves[0][1]) if len(leaves) == 1 else None
+                        idx.append((int(m.group(1)), sh) if m else None)
+                    if terms and all(x is not None for x in idx) and len(idx) >= 2:
+                        want = sorted((k, 8 * (n - 1 - k)) for k in range(n))
+                        verdicts.append((sorted(idx) == want, b.site(i), "explicit: byte/shift pairs %s" % sorted(idx)))
+        for i, t in b.calls(r"Iterator::(reduce|fold)$"):
+            fp = _fn_value(b, t["ops"][-1])
+            cb = ctx.world.body(fp) if fp and ctx.facts.fn(fp) else None
+            if cb is None:
+                continue
+            e = symex(cb, {"l": 0, "p": []})
+            terms = sym_or_terms_(e)
+            shape = sorted((l[4], sh) for x, sh in (terms or []) for l in sym_leaves(x) if l[0] == "place")
+            acc, item = cb.fn["arg_count"] - 1, cb.fn["arg_count"]
+            ok_cl = shape == [(acc, 8), (item, 0)]
+            recv = b.atoms(t["ops"][0])
+            takes = [a for a in recv if a[0] == "call" and a[1].endswith("Iterator::take")]
+            rev = [a for a in recv if a[0] == "call" and re.search(r"Iterator::(rev|skip|step_by)$", a[1])]
+            tk = None
+            for j, tt in b.calls(r"Iterator::take$"):
+                tk = b.fold(tt["ops"][1])
+                if tk is None:
+                    o = b.origin(tt["ops"][1], through_calls=False)
+                    if o[0] == "call" and (callee_name(o[2]) or "").endswith("mem::size_of"):
+                        tk = {"u8": 1, "u16": 2, "u32": 4, "u64": 8}.get((o[2]["callee"].get("args") or [None])[0])
+            verdicts.append((ok_cl and bool(takes) and not rev and tk == n, b.site(i),
+                             "fold: step %s over take(%s)%s" % ("acc << 8 | byte" if ok_cl else "is %s" % shape, tk, " with reordering adaptors" if rev else "")))
+        for i, t in b.calls(r"(from_be_bytes|from_le_bytes|from_ne_bytes|Buf::get_u\d+(_le|_ne)?)$"):
+            nm = (callee_name(t) or "").split("::")[-1]
+            verdicts.append((nm in ("from_be_bytes", "get_%s" % ty), b.site(i), "library call %s" % nm))
+        if not verdicts:
+            # written in a way this rule does not read: recorded as not decided (no verdict either way)
+            out.append(Inst("DECODE-BE", ty, True, b.site(0), "NOT DECIDED for this writing of the decoder (neither explicit shifts, a fold over take(n), nor a library call)",
+                            "big endian", {"undecided": True}))
+            continue
+        bad = [v for v in verdicts if not v[0]]
+        out.append(Inst("DECODE-BE", ty, not bad, (bad or verdicts)[0][1], "; ".join(v[2] for v in verdicts), "big endian: byte i of %d at bit %s" % (n, "8*(%d-i)" % (n - 1))))
+    return out
+
+
+def sym_or_terms_(e):
+    from mir import sym_or_terms
+    try:
+        return sym_or_terms(e)
+    except Exception:
+        return None
+
+
+def _item_err_targets(body, nxt):
+    """Successor blocks taken when the item yielded by the DecodeIter `next()` at nxt failed to decode."""
+    ids = _ids_from(body, nxt)
+    changed = True
+    while changed:
+        changed = False
+        for l, ds in body.defs.items():
+            if l in ids:
+                continue
+            for d in ds:
+                if d[0] == "stmt" and d[3]["rv"]["k"] in ("use", "ref", "discr"):
+                    o = d[3]["rv"].get("op") or {"pl": d[3]["rv"].get("pl")}
+                    if o.get("k") != "const" and o.get("pl") and o["pl"]["l"] in ids:
+                        ids.add(l)
+                        changed = True
+    loop = {x for x in body.reachable_from(nxt) if nxt in body.reachable_from(x)} | {nxt}
+    out = set()
+    for d in sorted(body.reachable_from(nxt)):
+        si = body.switch_info(d)
+        if not si or si["kind"] != "discr" or si.get("adt") not in ("std::result::Result", "std::ops::ControlFlow") or si["place"]["l"] not in ids:
+            continue
+        tt = body.term(d)
+        for v, tgt in tt["targets"]:
+            if si["variants"].get(v) in ("Err", "Break"):
+                out.add(tgt)
+        listed = {si["variants"].get(v) for v, _ in tt["targets"]}
+        if tt["otherwise"] is not None and not ({"Err", "Break"} & listed) and body.term(tt["otherwise"])["k"] != "unreachable":
+            out.add(tt["otherwise"])
+    return out, loop
+
+
+@rule("REPEATABLE", floor=3)
+def repeatable(ctx):
+    """A property the standard allows several times in one packet (User Property everywhere, Subscription Identifier
+    in an inbound PUBLISH) is never a reason to refuse the packet: inside the property loop no error exit is
+    reachable on a path on which the item is that property (whatever was seen before it)."""
+    out = []
+    for nm, (adt, body) in sorted(rx_decoders(ctx).items()):
+        nxts = [(i, t) for i, t, item_ty in decode_iter_nexts(body) if item_ty == "core::properties::Property"]
+        if not nxts:
+            continue
+        rep = {"UserProperty"} | ({"SubscriptionIdentifier"} if nm == "PublishRx" else set())
+        padt = ctx.facts.adt(PROPERTY)
+        allv = {v["name"] for v in padt["variants"]}
+        for nxt, t in nxts:
+            item_err, loop = _item_err_targets(body, nxt)
+            # leaving the loop (the iterator is exhausted) is not part of the loop body
+            dest_l = t["dest"]["l"]
+            for d in sorted(body.reachable_from(nxt)):
+                si = body.switch_info(d)
+                if si and si["kind"] == "discr" and si.get("adt") == "std::option::Option" and si["place"]["l"] == dest_l and not [p for p in si["place"]["p"] if p != "deref"]:
+                    tt = body.term(d)
+                    for v, tgt in tt["targets"]:
+                        if si["variants"].get(v) == "None":
+                            item_err.add(tgt)
+                    if tt["otherwise"] is not None and all(si["variants"].get(v) == "Some" for v, _ in tt["targets"]):
+                        item_err.add(tt["otherwise"])
+            region = body.reachable_from(nxt, avoid=list(item_err))
+            errs = sorted(x for x in region if x != nxt and (is_err_block(body, x) or any(
+                st["k"] == "assign" and st["rv"]["k"] == "agg" and st["rv"].get("variant") == "Err" and "Result" in (st["rv"].get("adt") or "") for st in body.blocks[x]["stmts"])))
+            refused = {}
+            npaths = 0
+            try:
+                for path in body.paths(nxt, stop=errs + [nxt], cap=20000):
+                    if path[-1] not in errs or any(x in item_err for x in path):
+                        continue
+                    if not body.feasible(path):
+                        continue
+                    npaths += 1
+                    allowed = set(allv)
+                    for a_, s_ in zip(path, path[1:]):
+                        si = body.switch_info(a_)
+                        if si and si["kind"] == "discr" and si.get("adt") == PROPERTY:
+                            vals = body.edge_value(a_, s_)
+                            names = {si["variants"].get(x) for x in vals if x != "otherwise"}
+                            if "otherwise" in vals:
+                                names |= allv - {si["variants"].get(x) for x, _ in si["targets"]}
+                            allowed &= names
+                    for v in allowed & rep:
+                        refused.setdefault(v, body.site(path[-1]))
+            except OverflowError:
+                refused = {"?": "too many paths"}
+            for v in sorted(rep):
+                out.append(Inst("REPEATABLE", "%s:%s" % (nm, v), v not in refused and "?" not in refused, refused.get(v) or refused.get("?") or body.site(nxt),
+                                "%s in the %s property loop: %s (%d error paths examined)" % (v, nm, "an error exit is reachable while the item is this property" if v in refused or "?" in refused else "no error exit on any path of this property", npaths),
+                                "may occur several times: never refused"))
+    return out
+
+
+@rule("UPROPS", floor=2)
+def uprops(ctx):
+    """`UserProperties` (the collection user properties are read from) keeps the order of the wire: it is filled by
+    appending only, and nothing in its module reorders, removes or replaces its elements."""
+    out = []
+    REORDER = re.compile(r"(Vec::<[^>]*>::|Vec::|VecDeque::<[^>]*>::|VecDeque::)(insert|remove|swap_remove|retain|retain_mut|dedup\w*|truncate|drain|clear|pop|append|splice|split_off|push_front)$|"
+                         r"slice::<impl \[T\]>::(sort\w*|reverse|swap|rotate_\w+|select_nth\w*|fill\w*|copy_within)$|(Iterator::rev|itertools)")
+    bad, pushes, n = [], [], 0
+    adt = "core::collections::UserProperties"
+    for f in ctx.facts.fns:
+        if "::test" in f["path"] or f["kind"] not in ("fn", "closure"):
+            continue
+        own = strip_generics(f.get("impl_self") or "") == adt or f["path"].startswith("<" + adt + " as ") or (f.get("parent") or "").startswith("<" + adt) or \
+            strip_generics(f["path"]).startswith(adt + "::")
+        if not own:
+            continue
+        b = ctx.world.body(f["path"])
+        ctx.note(b)
+        n += 1
+        for i in sorted(b.reach):
+            t = b.term(i)
+            if t["k"] != "call":
+                continue
+            nm = callee_name(t) or ""
+            res = callee_resolved(t) or nm
+            if REORDER.search(strip_generics(nm)) or REORDER.search(nm) or REORDER.search(res):
+                # reading adaptors (`iter().rev()`) on accessors do not change the stored order, but they change what the
+                # accessor yields: all of them are listed
+                bad.append("%s at %s" % (short_ty(nm), b.site(i)))
+            if re.search(r"Vec::<[^>]*>::push$|Vec::push$", nm):
+                pushes.append(b.site(i))
+    if n == 0:
+        raise AnchorLost("methods of core::collections::UserProperties")
+    out.append(Inst("UPROPS", "append-only", not bad, pushes[0] if pushes else "src/core/collections.rs", "%d functions of UserProperties; calls that reorder / remove / replace elements or reverse an iteration: %s" % (n, bad or "none"),
+                    "user properties are exposed in the order they were received"))
+    out.append(Inst("UPROPS", "push-appends", len(pushes) >= 1, pushes[0] if pushes else "src/core/collections.rs", "%d Vec::push call(s)" % len(pushes), "push() appends at the end"))
+    return out
+
+
+def _feasibly_reaches(body, src, dst):
+    """dst is reachable from src along a path that the path-local knowledge (enum literals just built, constant flags,
+    repeated tests of one value) does not rule out."""
+    if dst not in body.reachable_from(src):
+        return False
+    try:
+        for p_ in body.paths(src, stop=[dst], cap=3000):
+            if p_[-1] == dst and body.feasible(p_):
+                return True
+    except OverflowError:
+        return True
+    return False
+
+
+@rule("DECODE-LOOP", floor=3)
+def decode_loop(ctx):
+    """A loop over `DecodeIter<T>` (properties, reason codes) ends on the first item that fails to decode: the iterator
+    does not advance past an undecodable item (Decoder::try_decode advances only after a success), so going round
+    again on the Err edge re-reads the same bytes for ever."""
+    out = []
+    units = []
+    for f in ctx.facts.fns:
+        if f["kind"] != "fn" or not (f["file"].startswith("src/codec/") or f["file"].startswith("src/core/")) or "::test" in f["path"]:
+            continue
+        units.append(f["path"])
+    decs = {adt: body for nm, (adt, body) in rx_decoders(ctx).items()}
+    seen = set()
+    for path in units:
+        f = ctx.facts.fn(path)
+        body = None
+        for adt, b_ in decs.items():
+            if b_.path == path:
+                body = b_
+        if body is None:
+            body = ctx.world.body(path)
+        for i, t, item_ty in decode_iter_nexts(body):
+            st = "DecodeIter<%s>" % item_ty
+            if (body.path, i) in seen:
+                continue
+            seen.add((body.path, i))
+            ctx.note(body)
+            ids = _ids_from(body, i)
+            # locals holding (parts of) the item: payload moves `x = (item as Some).0`
+            changed = True
+            while changed:
+                changed = False
+                for l, ds in body.defs.items():
+                    if l in ids:
+                        continue
+                    for d in ds:
+                        if d[0] == "stmt" and d[3]["rv"]["k"] in ("use", "ref", "discr"):
+                            o = d[3]["rv"].get("op") or {"pl": d[3]["rv"].get("pl")}
+                            if o.get("k") != "const" and o.get("pl") and o["pl"]["l"] in ids:
+                                ids.add(l)
+                                changed = True
+            loop = {x for x in body.reachable_from(i) if i in body.reachable_from(x)}
+            back = []
+            n_sw = 0
+            for d in sorted(loop):
+                si = body.switch_info(d)
+                if not si or si["kind"] != "discr" or si.get("adt") not in ("std::result::Result", "std::ops::ControlFlow") or si["place"]["l"] not in ids:
+                    continue
+                # only the item itself (Option<Result<..>> payload), not values computed from the decoded property
+                pr = [p for p in si["place"]["p"] if p != "deref"]
+                tt = body.term(d)
+                n_sw += 1
+                for v, tgt in tt["targets"]:
+                    if si["variants"].get(v) in ("Err", "Break") and _feasibly_reaches(body, tgt, i):
+                        back.append(body.site(tgt))
+                listed = {si["variants"].get(v) for v, _ in tt["targets"]}
+                if tt["otherwise"] is not None and not ({"Err", "Break"} & listed) and body.term(tt["otherwise"])["k"] != "unreachable" and _feasibly_reaches(body, tt["otherwise"], i):
+                    back.append(body.site(tt["otherwise"]))
+            m_ = re.match(r"<([\w:]+)", body.path)
+            nm = (m_.group(1).split("::")[-1] + "::" + body.fn["name"]) if m_ else short_ty(strip_generics(body.path))
+            out.append(Inst("DECODE-LOOP", "%s:loop@%d" % (nm, len([o for o in out if o.key.startswith("DECODE-LOOP:%s:" % nm)])), not back and n_sw > 0, body.site(i),
+                            "loop over %s: %s" % (re.search(r"DecodeIter<[^ ]*", st).group(0) if re.search(r"DecodeIter<[^ ]*", st) else "DecodeIter",
+                                                  "an item that fails to decode leaves the loop (%d test(s) of the item)" % n_sw if not back and n_sw else
+                                                  ("the failing edge leads back to next(): %s" % sorted(set(back)) if back else "no test of the item's Result found")),
+                            "the first undecodable item ends the decoder with an error"))
+    return out
+
+
+@rule("ACCUMULATE", floor=3)
+def accumulate(ctx):
+    """A builder setter that appends to a collection held in an optional field (`user_property`, the reason codes of
+    SUBACK / UNSUBACK, ..) keeps what is already there: the field is (re)initialised only on the edge on which it is
+    still None. `self.f.insert(new()).push(v)` or an unconditional `self.f = Some(new())` keeps only the last item."""
+    out = []
+    PUSH = re.compile(r"(Vec::<[^>]*>::push|Vec::push|UserProperties::push|VecDeque::<[^>]*>::push_back|VecDeque::push_back)$")
+    OVER = re.compile(r"(Option::<[^>]*>::(insert|replace|take)|Option::(insert|replace|take)|mem::(replace|take|swap))$")
+    for f in ctx.facts.fns:
+        if f["kind"] != "fn" or not f["file"].startswith("src/codec/") or not re.search(r"Builder$", strip_generics(f.get("impl_self") or "")) or f["arg_count"] != 2:
+            continue
+        b = ctx.world.body(f["path"])
+        badt = strip_generics(f["impl_self"])
+        pushes = []
+        for i, t in b.calls(r"push(_back)?$"):
+            if not PUSH.search(strip_generics(callee_name(t) or "")) and not PUSH.search(callee_name(t) or ""):
+                continue
+            flds = {a[2] for a in b.atoms(t["ops"][0]) if a[0] == "field" and strip_generics(a[1] or "") == badt}
+            pushes.append((i, flds))
+        fields = set().union(*[fl for _, fl in pushes]) if pushes else set()
+        if not fields:
+            continue
+        ctx.note(b)
+        for fld in sorted(fields):
+            def is_field(pl, fld=fld):
+                fs = place_fields(pl)
+                return bool(fs) and strip_generics(fs[-1][0] or "") == badt and fs[-1][1] == fld
+            writes = []
+            for i in sorted(b.reach):
+                for st in b.blocks[i]["stmts"]:
+                    if st["k"] == "assign" and is_field(st["lhs"]):
+                        writes.append((i, "assignment"))
+                t = b.term(i)
+                if t["k"] == "call" and OVER.search(callee_name(t) or "") and t["ops"]:
+                    if any(a[0] == "field" and strip_generics(a[1] or "") == badt and a[2] == fld for a in b.atoms(t["ops"][0])):
+                        writes.append((i, (callee_name(t) or "").split("::")[-1]))
+            bad = []
+            for i, how in writes:
+                guarded = False
+                for (d, s_) in dominating_edges(b, i):
+                    si = b.switch_info(d)
+                    c = Cond(b, d)
+                    if si and si["kind"] == "discr" and si.get("adt") == "std::option::Option":
+                        if any(a[0] == "field" and a[2] == fld for a in b.atoms({"k": "copy", "pl": {"l": si["place"]["l"], "p": []}})) or is_field(si["place"]):
+                            vals = b.edge_value(d, s_)
+                            names = {si["variants"].get(v) for v in vals if v != "otherwise"}
+                            listed = {si["variants"].get(v) for v, _ in si["targets"]}
+                            if names == {"None"} or ("otherwise" in vals and listed == {"Some"}):
+                                guarded = True
+                    elif c.kind == "call" and c.callee == "is_none" and any(a[0] == "field" and a[2] == fld for x in c.args for a in b.atoms(x)):
+                        h = c.holds_on(s_)
+                        if h is not None and (h ^ bool(c.neg)):
+                            guarded = True
+                if not guarded:
+                    bad.append("%s at %s" % (how, b.site(i)))
+            nm = "%s::%s" % (badt.split("::")[-1], f["name"])
+            out.append(Inst("ACCUMULATE", "%s:%s" % (nm, fld), not bad, b.site(0),
+                            "appends to %s; the field is overwritten %s" % (fld, "only while it is still None (%d write(s))" % len(writes) if not bad else "regardless of its content: %s" % bad),
+                            "every occurrence is kept (repeated user properties, one reason code per topic filter)"))
+    return out
+
+
 # ------------------------------------------------------------------------------------ ACCESSOR / SETTER
 
 ACCESSOR_ALIAS = {"user_properties": "user_property", "payload": "payload"}
@@ -625,28 +1063,45 @@ def shortform_exact(ctx):
             skips = [s_ for s_ in succ if not body.dominates(ci, s_)]
             got = set()
             descr = []
-            for s_ in skips:
-                lo, hi = 0, 10 ** 9
-                # bytes of the variable part already decoded on the way to this exit
-                consumed = 0
-                for i, t, ty in tdc:
-                    if i != rem_bb and body.dominates(rem_bb, i) and body.dominates(i, s_):
-                        w = _width_of(ty)
-                        if w:
-                            consumed += w
-                lo = max(lo, consumed)
-                for (d, e) in dominating_edges(body, s_):
-                    if not body.dominates(rem_bb, d):
+            # every way of reaching a success exit without decoding the element: the conditions met on that path (not
+            # only those that dominate the exit: the exits may have been merged into one `builder.build()`) bound the
+            # remaining length
+            all_succ = [s_ for s_ in succ if s_ in body.reachable_from(rem_bb)]
+            for s_ in all_succ:
+                try:
+                    paths = [p_ for p_ in body.paths(rem_bb, stop=[s_, ci] + [x for x in all_succ if x != s_], cap=4000) if p_[-1] == s_ and ci not in p_]
+                except OverflowError:
+                    paths = None
+                if paths is None:
+                    got.add("?")
+                    descr.append("%s: too many paths" % body.site(s_))
+                    continue
+                for p_ in paths:
+                    if not body.feasible(p_):
                         continue
-                    c = Cond(body, d)
-                    rng = _rem_constraint(body, c, e, rem_ids, tdc, rem_bb, d)
-                    if rng:
-                        lo, hi = max(lo, rng[0]), min(hi, rng[1])
-                vals = set(range(lo, min(hi, 64) + 1)) if hi >= lo else set()
-                if hi > 64:
-                    vals.add("...")
-                got |= vals
-                descr.append("%s: remaining length in [%d, %s]" % (body.site(s_), lo, hi if hi < 10 ** 9 else "inf"))
+                    lo, hi = 0, 10 ** 9
+                    consumed = 0
+                    onp = set(p_)
+                    for i, t, ty in tdc:
+                        if i != rem_bb and i in onp:
+                            w = _width_of(ty)
+                            if w:
+                                consumed += w
+                    lo = max(lo, consumed)
+                    for d, e in zip(p_, p_[1:]):
+                        if len(body.succ(d)) < 2:
+                            continue
+                        c = Cond(body, d)
+                        rng = _rem_constraint(body, c, e, rem_ids, tdc, rem_bb, d)
+                        if rng:
+                            lo, hi = max(lo, rng[0]), min(hi, rng[1])
+                    vals = set(range(lo, min(hi, 64) + 1)) if hi >= lo else set()
+                    if hi > 64 and hi >= lo:
+                        vals.add("...")
+                    got |= vals
+                    d_ = "%s: remaining length in [%d, %s]" % (body.site(s_), lo, hi if hi < 10 ** 9 else "inf")
+                    if d_ not in descr:
+                        descr.append(d_)
             out.append(Inst("SHORTFORM-EXACT", "%s:%s" % (nm, what), got == want, body.site(ci),
                             "%s is treated as absent for remaining length %s (%s)" % (what, sorted(got, key=str), "; ".join(descr) or "never"),
                             "absent exactly for remaining length %s" % sorted(want)))
@@ -675,6 +1130,44 @@ def _ids_from(body, call_bb):
                     ids.add(l)
                     changed = True
     return ids
+
+
+_CONST_CMP = {}
+
+
+def _const_comparison(body, t, k):
+    """If the comparison call `t` resolves to a hand-written impl of the crate whose result, for the constant right-hand
+    side k, does not depend on the left-hand side: that result (bool); else None. Decided by running the impl's MIR
+    abstractly with the constant (absint)."""
+    if t is None or not isinstance(k, int):
+        return None
+    path = (t.get("callee") or {}).get("resolved") or ""
+    f = body.facts.fn(path)
+    if f is None or not f["file"].startswith("src/") or f.get("ret_ty") != "bool" or f["arg_count"] != 2:
+        return None
+    key = (path, k)
+    if key not in _CONST_CMP:
+        import absint
+        from mir import Body as _B
+        ib = _B(f, body.facts)
+        res = None
+        try:
+            ex = absint.Explorer(ib, max_bytes=0, max_states=400)
+            cell = 10 ** 6
+            byref = "&" in f["locals"][2]["ty"]
+            args = {cell: absint.iv(k, k)} if k >= 0 else {}
+            if k >= 0:
+                args[2] = ("ref", {"l": cell, "p": []}) if byref else absint.iv(k, k)
+                ex.run(args)
+                vals = {r[1] for r in ex.returns}
+                if len(vals) == 1 and not ex.unbounded:
+                    v = vals.pop()
+                    if isinstance(v, tuple) and v[0] == "bool" and v[1] is not None:
+                        res = bool(v[1])
+        except Exception:
+            res = None
+        _CONST_CMP[key] = res
+    return _CONST_CMP[key]
 
 
 def _rem_constraint(body, c, succ, rem_ids, tdc, rem_bb, cond_bb):
@@ -717,6 +1210,14 @@ def _rem_constraint(body, c, succ, rem_ids, tdc, rem_bb, cond_bb):
                     kk = None
             if kk is not None and is_rem(x):
                 op, k = ("Ne" if c.neg else "Eq"), kk
+                # a hand-written comparison of the crate is evaluated, not assumed: `VarSizeInt == 0` through an impl
+                # that answers `false` for every non-positive right-hand side never holds
+                fixed = _const_comparison(body, getattr(c, "call_term", None), kk)
+                if fixed is not None:
+                    holds = fixed ^ bool(c.neg)         # value of the tested boolean, whatever the left-hand side is
+                    if bool(truth) != holds:
+                        return (1, 0)                   # this edge is never taken
+                    return None
     if op is None:
         return None
     k = k + offset
